@@ -21,7 +21,7 @@
    NUL-free title / keys / messages, valid UTF-16) and "the file is smaller than 4 GiB". *)
 From Coq Require Import List NArith ZArith Bool.
 From Mila Require Import Lib.Bytes Lib.Machine Model.BinArchive Model.BinStreams Model.BinFormat Model.TextMap Model.TextFormat Model.TextCodec
-  Proofs.BinSerializeConforms Proofs.ObsEqual Proofs.TextFormatRead Proofs.TextFormatWrite Proofs.TextFormatRoundTrip Proofs.TextBinBridge
+  Proofs.BinFormatSpec Proofs.BinSerializeConforms Proofs.ObsEqual Proofs.TextFormatRead Proofs.TextFormatWrite Proofs.TextFormatRoundTrip Proofs.TextBinBridge
   Proofs.Utf16Proofs Proofs.TextHistory.
 Import ListNotations.
 Local Open Scope N_scope.
@@ -88,6 +88,19 @@ Definition C06_layout_bytes_statement (m : mode) : Prop :=
         off mod 4 = 0 /\ read_labels a' off = Ok (Some [k]) /\ sliceN off (lenN (cell fmt msg)) (a_data a') = Some (cell fmt msg).
 Theorem C06_layout_bytes : forall m, C06_layout_bytes_statement m.
 Proof. exact text_layout_bytes_final. Qed.
+
+(* ---- (2b) any conforming FILE, not only this writer's image ---- *)
+(* from_bytes on a file that conforms to the bin-archive format relation of C01 (tables in any order, strings anywhere,
+   extra strings / pointers the text reader never looks at) reads the file's content; a file whose data region is the title
+   cell followed by the message cells of t, with [key] on every message offset, parses to t whatever tool wrote it *)
+Theorem C06_file_reads_content : forall fmt e f c, conforms e f c ->
+  TextFormat.from_bytes fmt e f = TextFormat.from_archive fmt (content_archive e c).
+Proof. exact text_file_reads_content. Qed.
+Theorem C06_parse_any_conforming_file : forall fmt e f c t, conforms e f c -> wf_text fmt t ->
+  c_data c = a_data (text_image fmt e t) ->
+  (forall x, am_get x (c_labels c) = am_get x (a_labels (text_image fmt e t))) ->
+  TextFormat.from_bytes fmt e f = Ok (parsed fmt t).
+Proof. exact text_parse_any_conforming_file. Qed.
 
 (* ---- (3) the link to C07: the in-memory archive after ANY history of API calls is what the round trip returns ---- *)
 (* str::encode_utf16 / the decoder of read_utf_16_impl on Unicode scalar values (Model/TextCodec.v): inverse on every Rust
